@@ -79,6 +79,16 @@ func dotenvOutcome(m map[string]string, err error) map[string]any {
 }
 
 // realDotenv runs the two string/reader entry points; they must agree (ParseWithLookup only strips a BOM).
+func stripEntry(out map[string]any) map[string]any {
+	o := map[string]any{}
+	for k, v := range out {
+		if k != "entryDiffers" {
+			o[k] = v
+		}
+	}
+	return o
+}
+
 func realDotenv(src string, lookup map[string]string) map[string]any {
 	m, err := dotenv.UnmarshalWithLookup(src, lookupFn(lookup))
 	out := dotenvOutcome(m, err)
@@ -86,6 +96,24 @@ func realDotenv(src string, lookup map[string]string) map[string]any {
 		m2, err2 := dotenv.ParseWithLookup(strings.NewReader(src), lookupFn(lookup))
 		if out2 := dotenvOutcome(m2, err2); !reflect.DeepEqual(out, out2) {
 			out["entryDiffers"] = out2
+		}
+	}
+	if len(lookup) == 0 {
+		// round 5: the glue around the core — a nil LookupFn (replaced by noLookupFn inside parser.parse) through
+		// UnmarshalWithLookup, UnmarshalBytesWithLookup and dotenv.Parse must be the empty lookup of the model
+		m3, err3 := dotenv.UnmarshalWithLookup(src, nil)
+		if out3 := dotenvOutcome(m3, err3); !reflect.DeepEqual(stripEntry(out), out3) {
+			out["entryDiffers"] = map[string]any{"nilLookup": out3}
+		}
+		m4, err4 := dotenv.UnmarshalBytesWithLookup([]byte(src), nil)
+		if out4 := dotenvOutcome(m4, err4); !reflect.DeepEqual(stripEntry(out), out4) {
+			out["entryDiffers"] = map[string]any{"bytesNilLookup": out4}
+		}
+		if !strings.HasPrefix(src, "\uFEFF") {
+			m5, err5 := dotenv.Parse(strings.NewReader(src))
+			if out5 := dotenvOutcome(m5, err5); !reflect.DeepEqual(stripEntry(out), out5) {
+				out["entryDiffers"] = map[string]any{"Parse": out5}
+			}
 		}
 	}
 	return out
